@@ -38,7 +38,6 @@ pub mod valid {
 
     #[inline]
     pub fn value(mut bytes: &[u8]) -> Result<std::borrow::Cow<str>, super::super::Error> {
-        use std::borrow::Cow;
 
         if bytes.len() >= 2 && bytes[0] == b'"' && bytes[bytes.len() - 1] == b'"' {
             bytes = &bytes[1..(bytes.len() - 1)]
@@ -52,11 +51,9 @@ pub mod valid {
                 _ => ()
             }
         }
-        // SAFETY: `bytes` here os obviously ASCII
-        Ok(match crate::percent_decode(bytes) {
-            Cow::Borrowed(b) => Cow::Borrowed(unsafe {std::str::from_utf8_unchecked(b)}),
-            Cow::Owned(b) => Cow::Owned(unsafe {String::from_utf8_unchecked(b)})
-        })
+        /* `bytes` is ASCII here, but what its percent-escapes decode to is anything */
+        crate::percent_decode_utf8(bytes)
+            .map_err(|_| serde::de::Error::custom("invalid Cookie value: not UTF-8"))
     }
 }
 
@@ -86,7 +83,11 @@ impl<'de> CookieDeserializer<'de> {
     }
     #[inline(always)]
     fn next_section(&mut self) -> Result<Cow<'de, str>, super::Error> {
-        let next_punc = self.input.iter().position(|b| matches!(b, b'=' | b';'));
+        let next_punc = match &self.side {
+            ParsingSide::Name  => self.input.iter().position(|b| matches!(b, b'=' | b';')),
+            /* `=` is an ordinary character of a cookie value (RFC 6265 cookie-octet), e.g. base64 padding */
+            ParsingSide::Value => self.input.iter().position(|b| matches!(b, b';')),
+        };
 
         match &self.side {
             ParsingSide::Name => match next_punc {
@@ -233,7 +234,7 @@ impl<'u, 'de> serde::Deserializer<'de> for &'u mut CookieDeserializer<'de> {
     #[inline]
     fn deserialize_option<V>(self, visitor: V) -> Result<V::Value, Self::Error>
     where V: serde::de::Visitor<'de> {
-        if self.input.iter().position(|b| b==&b'&').unwrap_or(self.input.len()) == 0 {
+        if self.input.iter().position(|b| b==&b';').unwrap_or(self.input.len()) == 0 {
             visitor.visit_none()
         } else {
             visitor.visit_some(self)
@@ -242,7 +243,7 @@ impl<'u, 'de> serde::Deserializer<'de> for &'u mut CookieDeserializer<'de> {
 
     fn deserialize_unit<V>(self, visitor: V) -> Result<V::Value, Self::Error>
     where V: serde::de::Visitor<'de> {
-        if self.input.iter().position(|b| b==&b'&').unwrap_or(self.input.len()) == 0 {
+        if self.input.iter().position(|b| b==&b';').unwrap_or(self.input.len()) == 0 {
             visitor.visit_unit()
         } else {
             Err((|| serde::de::Error::custom(format!(
@@ -500,7 +501,7 @@ const _: () = {
         fn variant_seed<V>(self, seed: V) -> Result<(V::Value, Self::Variant), Self::Error>
         where V: serde::de::DeserializeSeed<'de> {
             Ok((
-                seed.deserialize(self.de.next_section().unwrap().into_deserializer())?,
+                seed.deserialize(self.de.next_section()?.into_deserializer())?,
                 self,
             ))
         }
